@@ -248,9 +248,13 @@ FIXED_INSTANTS = ['2021-01-15T12:00:00.000000', '2021-07-15T12:00:00.000000', '1
 _TZ_POOL = {}      # offset seconds -> the one tzinfo object used for it by this process (see model.SHARED_TZ)
 
 
-def fixed_offset_cases():
+def fixed_offset_cases(order=0):
+    """order rotates the instants, so that the first date-time written for an offset falls into another season (a writer
+    that remembers what it worked out for a tzinfo is right for the first one)"""
+    k = (order * 2) % len(FIXED_INSTANTS)
+    instants = FIXED_INSTANTS[k:] + FIXED_INSTANTS[:k]
     for oi, off in enumerate(FIXED_OFFSETS):
-        for ii, utc in enumerate(FIXED_INSTANTS):
+        for ii, utc in enumerate(instants):
             yield {'kind': 'fixed-offset', 'ver': '3.0' if (oi + ii) % 2 else '2.0', 'offset_min': off, 'utc': utc,
                    'pos': ('cell', 'meta', 'colmeta', 'list')[(oi + ii) % 4]}
 
@@ -299,16 +303,47 @@ def check_fixed_offset(case, fmt, how):
     d = model.diff(model.normalise(m), back, tol=(fmt == 'json'), dt_by_instant=True)
     if d:
         raise Violation('fixed-offset-denotes-other-instant', case, '%s | text=%r' % (d, txt[:300]), (fmt, how))
+    if how == 'ref':
+        # the independent reader takes the offset from the ISO part; the zone name written next to it must not contradict it
+        _zone_agrees(back, case, txt, fmt)
     return 'written'
 
 
-def fixed_offset_part(acc, fmt, how):
+def _zone_agrees(m, case, txt, fmt):
+    import pytz
+    if isinstance(m, list) and m and m[0] == 'dt' and len(m) > 3 and m[3] is not None:
+        from hszinc import zoneinfo
+        olson = zoneinfo.get_tz_map().get(m[3])
+        if olson is not None:
+            off = pytz.utc.localize(model.dt_parse(m[1])).astimezone(pytz.timezone(olson)).utcoffset().total_seconds()
+            if int(off) != int(m[2]):
+                raise Violation('zone-contradicts-offset', case, 'date-time written with offset %+d s and zone %s, whose offset at that '
+                                'instant is %+d s | text=%r' % (m[2], m[3], off, txt[:300]), (fmt, 'ref'))
+    elif isinstance(m, list):
+        for x in m:
+            if isinstance(x, list):
+                _zone_agrees(x, case, txt, fmt)
+
+
+def check_fixed_offset_seq(case, fmt, how):
+    """replay of a violation found inside the sequence: case = a fixed-offset case + {'order': k, 'upto': index}"""
+    for i, c in enumerate(fixed_offset_cases(case['order'])):
+        if i > case['upto']:
+            break
+        try:
+            check_fixed_offset(c, fmt, how)
+        except Violation as v:
+            if i == case['upto']:
+                raise Violation(v.stage, case, v.detail, v.tags)
+
+
+def fixed_offset_part(acc, fmt, how, order=0):
     n = 0
-    for case in fixed_offset_cases():
+    for i, case in enumerate(fixed_offset_cases(order)):
         try:
             r = check_fixed_offset(case, fmt, how)
         except Violation as v:
-            acc.violation(v)
+            acc.violation(Violation(v.stage, dict(case, order=order, upto=i), v.detail, v.tags))
             continue
         acc.case(case, r == 'written', labels=('fixed-offset:' + r,))
         n += 1
